@@ -159,6 +159,12 @@ def governing(ticks: list[int], t: int) -> int:
 def execute(plan: dict[str, Any]) -> dict[str, Any]:
     if plan["part"] == "session":
         return _execute_session(plan)
+    if env.package_makes_threads():
+        # the library runs threads of its own: the whole sequence of loads is ONE simulated caller
+        from detsim.sched import as_one_caller
+
+        return as_one_caller(PROP, lambda: _execute_reorder(plan), int(plan["seed"]), env.PKG_DIR,
+                             preempt_lines=not env.package_uses_locks_or_threads())
     return _execute_reorder(plan)
 
 
